@@ -128,6 +128,30 @@ class Fluid:
 _FLUIDS = {}
 
 
+class UserFluid:
+    """A fluid known only through user-supplied constants (documented units: Pa, g/cm3, g/mol), independent of temperature."""
+    def __init__(self, molar_mass, saturation_pressure, liquid_density, gas_density):
+        self._M, self._ps, self._rl, self._rg = molar_mass, saturation_pressure, liquid_density, gas_density
+
+    def p_sat(self, T):
+        return self._ps
+
+    def rho_liq(self, T):
+        return self._rl
+
+    def rho_gas(self, T):
+        return self._rg
+
+    def rho_liq_molar(self, T):
+        return self._rl / self._M
+
+    def rho_gas_molar(self, T):
+        return self._rg / self._M
+
+    def molar_mass(self):
+        return self._M
+
+
 def fluid(backend_name):
     f = _FLUIDS.get(backend_name)
     if f is None:
